@@ -1,7 +1,8 @@
 import Vorbis.File.Model
 import Vorbis.Props.C07
 namespace Vorbis.Props.C12
-open Vorbis Vorbis.File Vorbis.Props
+open Vorbis Vorbis.File Vorbis.Block Vorbis.Props Vorbis.Props.C07
+set_option linter.unusedSimpArgs false
 
 /-- what a page seek is going to do is decided from the link table and the target alone: two handles that agree on the table
     (whatever a failed call did to decoder, cursor, queue or position) get the same plan -/
@@ -26,5 +27,62 @@ theorem C12_seek_error_state (rc : Int) (s : VF) :
     ((seekError rc).run s).2.ready = OPENED ∧ ((seekError rc).run s).2.source = s.source ∧
     ((seekError rc).run s).2.closes = s.closes := by
   simp [seekError, decodeClear, StateT.run, bind, StateT.bind, modify, modifyGet, MonadStateOf.modifyGet, StateT.modifyGet, pure, StateT.pure]
+
+theorem sameFile_refl (s : VF) : SameFile s s := ⟨rfl, rfl, rfl, rfl, rfl, rfl, rfl, rfl⟩
+theorem sameFile_symm {a b : VF} (h : SameFile a b) : SameFile b a :=
+  ⟨h.tab.symm, h.infos.symm, h.seekable.symm, h.end_.symm, h.hs.symm, h.hdrkey.symm, h.source.symm, h.closes.symm⟩
+theorem sameFile_trans {a b c : VF} (h : SameFile a b) (g : SameFile b c) : SameFile a c :=
+  ⟨h.tab.trans g.tab, h.infos.trans g.infos, h.seekable.trans g.seekable, h.end_.trans g.end_, h.hs.trans g.hs, h.hdrkey.trans g.hdrkey,
+   h.source.trans g.source, h.closes.trans g.closes⟩
+
+/-- the error exit leaves a handle on the same file, in a consistent (decoder-less) state -/
+theorem seekError_same (rc : Int) (s : VF) : SameFile s ((seekError rc).run s).2 ∧ DecWF ((seekError rc).run s).2 := by
+  simp [seekError, decodeClear, StateT.run, bind, StateT.bind, modify, modifyGet, MonadStateOf.modifyGet, StateT.modifyGet, pure, StateT.pure]
+  refine ⟨⟨rfl, rfl, rfl, rfl, rfl, rfl, rfl, rfl⟩, ?_, ?_, ?_⟩
+  · intro h; exact absurd (show OPENED ≥ STREAMSET ∨ OPENED > STREAMSET from by first | exact Or.inl h | exact Or.inr h) (by decide)
+  · intro h; exact absurd (show OPENED ≥ STREAMSET ∨ OPENED > STREAMSET from by first | exact Or.inl h | exact Or.inr h) (by decide)
+  · show OPENED ≤ INITSET; decide
+
+/-- every failing plan of a page seek: same file, consistent state, decoder dumped, position unknown -/
+theorem failing_plan_same (f : Int → M Int) (p : SeekPlan) (s : VF) (hp : (∃ rc c, p = .fail rc c) ∨ (∃ l c o rc, p = .failSel l c o rc)) :
+    SameFile s ((execPlan f p).run s).2 ∧ DecWF ((execPlan f p).run s).2 := by
+  rcases hp with ⟨rc, c, rfl⟩ | ⟨l, c, o, rc, rfl⟩
+  · simp [execPlan, setCur, seekError, decodeClear, StateT.run, bind, StateT.bind, modify, modifyGet, MonadStateOf.modifyGet, StateT.modifyGet, pure, StateT.pure]
+    refine ⟨⟨rfl, rfl, rfl, rfl, rfl, rfl, rfl, rfl⟩, ?_, ?_, ?_⟩
+    · intro h; exact absurd (show OPENED ≥ STREAMSET ∨ OPENED > STREAMSET from by first | exact Or.inl h | exact Or.inr h) (by decide)
+    · intro h; exact absurd (show OPENED ≥ STREAMSET ∨ OPENED > STREAMSET from by first | exact Or.inl h | exact Or.inr h) (by decide)
+    · show OPENED ≤ INITSET; decide
+  · simp [execPlan, setCur, selectLink, seekError, decodeClear, StateT.run, bind, StateT.bind, modify, modifyGet, MonadStateOf.modifyGet, StateT.modifyGet, pure, StateT.pure]
+    refine ⟨?_, ?_, ?_, ?_⟩
+    · unfold selectLinkF; split <;> exact ⟨rfl, rfl, rfl, rfl, rfl, rfl, rfl, rfl⟩
+    · intro h; exact absurd (show OPENED ≥ STREAMSET ∨ OPENED > STREAMSET from by first | exact Or.inl h | exact Or.inr h) (by decide)
+    · intro h; exact absurd (show OPENED ≥ STREAMSET ∨ OPENED > STREAMSET from by first | exact Or.inl h | exact Or.inr h) (by decide)
+    · show OPENED ≤ INITSET; decide
+
+/-- **full recovery**: take any handle, let any seek on it fail (every failing exit of the page search: before or after a link was
+    selected, with any code), then seek to `pos`; take a handle on the same file that never failed and seek to `pos`: same return
+    value and *identical* handle state, hence identical audio from every later read -/
+theorem C12_state_after_failure_is_forgotten (ph : Phys) (f : Int → M Int) (pos : Int) (s clean : VF) (p : SeekPlan)
+    (hfail : (∃ rc c, p = .fail rc c) ∨ (∃ l c o rc, p = .failSel l c o rc))
+    (hsame : SameFile s clean) (hc : clean.ready ≥ OPENED) (sc : clean.seekable = true) (wc : DecWF clean)
+    (hp : 0 ≤ pos ∧ pos ≤ sumAll clean.tab)
+    (link : Nat) (cur : Cur) (os : OStream) (po : Int) (hplan : planSeekPage ph clean.tab pos = .land link cur os po) :
+    (pcmSeek ph f pos).run ((execPlan f p).run s).2 = (pcmSeek ph f pos).run clean := by
+  have ⟨h1, h2⟩ := failing_plan_same f p s hfail
+  have hs2 : SameFile ((execPlan f p).run s).2 clean := sameFile_trans (sameFile_symm h1) hsame
+  have hr : ((execPlan f p).run s).2.ready ≥ OPENED := by
+    rcases hfail with ⟨rc, c, rfl⟩ | ⟨l, c, o, rc, rfl⟩ <;>
+    simp [execPlan, setCur, selectLink, seekError, decodeClear, StateT.run, bind, StateT.bind, modify, modifyGet, MonadStateOf.modifyGet, StateT.modifyGet, pure, StateT.pure]
+  have hsk : ((execPlan f p).run s).2.seekable = true := by rw [hs2.seekable]; exact sc
+  exact C07_seek_history_independent ph f pos _ clean hs2 hr hc hsk h2 wc (by rw [hs2.tab]; exact hp) link cur os po (by rw [hs2.tab]; exact hplan)
+
+/-- non-vacuity: on the five-page example file of Props/C07 a seek beyond a (deliberately) failing plan and a clean handle -/
+example (f : Int → M Int) :
+    (pcmSeek C07.exPhys f 200).run ((execPlan f (.fail OV_EREAD { off := 17, fill := 300 })).run C07.exUsed).2 =
+      (pcmSeek C07.exPhys f 200).run C07.exFresh := by
+  obtain ⟨l, c, o, po, h⟩ := C07.isLand_iff _ (show C07.SeekPlan.isLand (planSeekPage C07.exPhys C07.exFresh.tab 200) = true by decide +kernel)
+  exact C12_state_after_failure_is_forgotten C07.exPhys f 200 C07.exUsed C07.exFresh _ (Or.inl ⟨_, _, rfl⟩)
+    ⟨rfl, rfl, rfl, rfl, rfl, rfl, rfl, rfl⟩ (by decide) rfl
+    ⟨fun h => absurd h (by decide), fun h => absurd h (by decide), by decide⟩ (by decide +kernel) l c o po h
 
 end Vorbis.Props.C12
